@@ -212,3 +212,419 @@ Proof.
   - rewrite bind_params_demote_same; auto.
     intros p Hp K Hin. apply H in Hin. rewrite (posonly_name_In s p) in Hin; auto. discriminate.
 Qed.
+
+(* ------------------------------------------------------------------ *)
+(* Part C: what the boltons-generated function forwards binds again to the
+   same arguments, both for getcallargs (demoted signature) and for the real
+   function *)
+
+Definition posc (va : bool) (p : param) (bv : bval) : list value :=
+  match p_kind p, bv with
+  | KPosOnly, BVal v => [v]
+  | KNormal, BVal v => if fwd_by_keyword va p then [] else [v]
+  | KVarArgs, BTuple vs => vs
+  | _, _ => []
+  end.
+
+Definition kwc (va : bool) (p : param) (bv : bval) : list (name * value) :=
+  match p_kind p, bv with
+  | KNormal, BVal v => if fwd_by_keyword va p then [(p_name p, v)] else []
+  | KKwOnly, BVal v => [(p_name p, v)]
+  | KVarKw, BDict kv => kv
+  | _, _ => []
+  end.
+
+Lemma fwd_pos_cons va p ps n bv b :
+  fwd_pos va (p :: ps) ((n, bv) :: b) = posc va p bv ++ fwd_pos va ps b.
+Proof. reflexivity. Qed.
+
+Lemma fwd_kw_cons va p ps n bv b :
+  fwd_kw va (p :: ps) ((n, bv) :: b) = kwc va p bv ++ fwd_kw va ps b.
+Proof. reflexivity. Qed.
+
+Lemma names_inj (s : fsig) p q :
+  NoDup (names s) -> In p s -> In q s -> p_name p = p_name q -> p = q.
+Proof.
+  induction s as [|x r IH]; cbn [names map]; [intros _ []|].
+  intros ND [Hp|Hp] [Hq|Hq] E; inversion ND; subst; auto.
+  - contradiction H1. rewrite E. now apply in_map.
+  - contradiction H1. rewrite <- E. now apply in_map.
+Qed.
+
+Lemma has_kind_In kd (s : fsig) p : In p s -> p_kind p = kd -> has_kind kd s = true.
+Proof.
+  intros H K. unfold has_kind. apply existsb_exists. exists p. split; auto.
+  rewrite K. now destruct kd.
+Qed.
+
+Lemma kw_target_In (s : fsig) p : In p s -> by_keyword (p_kind p) = true -> kw_target s (p_name p) = true.
+Proof.
+  intros H K. unfold kw_target. apply existsb_exists. exists p. split; auto.
+  now rewrite K, Pos.eqb_refl.
+Qed.
+
+Lemma Forall2_combine_In {A B} (P : A -> B -> Prop) l1 l2 a b :
+  Forall2 P l1 l2 -> In (a, b) (combine l1 l2) -> P a b.
+Proof.
+  induction 1; cbn [combine]; [intros []|].
+  intros [E|E]; [inversion E; now subst|auto].
+Qed.
+
+Lemma Forall2_In_combine {A B} (P : A -> B -> Prop) l1 l2 a :
+  Forall2 P l1 l2 -> In a l1 -> exists b, In (a, b) (combine l1 l2).
+Proof.
+  induction 1; [intros []|]. intros [->|H1].
+  - exists y. now left.
+  - destruct (IHForall2 H1) as [b0 Hb]. exists b0. now right.
+Qed.
+
+Section Forward.
+  Variable s : fsig.
+  Variable DK : list (name * value).
+  Variable dm : bool.
+  Variable b : bindings.
+  Hypothesis Hord : order_ok s = true.
+  Hypothesis Hnd : NoDup (names s).
+  Hypothesis HDKnd : NoDup (keys DK).
+  Hypothesis HDK : forall k, In k (keys DK) -> kw_target (demote s) k = false.
+
+  Let va := has_kind KVarArgs s.
+
+  Definition tr (p : param) : param := if dm then demote_param p else p.
+  Let T := map tr s.
+
+  (* an entry of the bindings relative to its parameter *)
+  Definition R (p : param) (e : name * bval) : Prop :=
+    fst e = p_name p /\
+    match p_kind p with
+    | KVarArgs => exists vs, snd e = BTuple vs
+    | KVarKw => snd e = BDict DK
+    | _ => exists v, snd e = BVal v
+    end.
+
+  Hypothesis HR : Forall2 R s b.
+  Let KW' := fwd_kw va s b.
+
+  Lemma T_cases : T = s \/ T = demote s.
+  Proof.
+    unfold T, tr. destruct dm; [right; reflexivity|left]. apply map_id.
+  Qed.
+
+  Lemma tr_other p : p_kind p <> KPosOnly -> tr p = p.
+  Proof. unfold tr. destruct dm; auto. apply demote_param_other. Qed.
+
+  Lemma kwT_of_s k : kw_target s k = true -> kw_target T k = true.
+  Proof.
+    destruct T_cases as [-> | ->]; auto. rewrite kw_target_demote. intros ->. reflexivity.
+  Qed.
+
+  Lemma kwT_le_D k : kw_target T k = true -> kw_target (demote s) k = true.
+  Proof.
+    destruct T_cases as [-> | ->]; auto. rewrite kw_target_demote. intros ->. reflexivity.
+  Qed.
+
+  Lemma R_cases p n bv : R p (n, bv) -> n = p_name p /\
+    ((p_kind p = KPosOnly /\ exists v, bv = BVal v /\ posc va p bv = [v] /\ kwc va p bv = []) \/
+     (p_kind p = KNormal /\ fwd_by_keyword va p = false /\
+        exists v, bv = BVal v /\ posc va p bv = [v] /\ kwc va p bv = []) \/
+     (p_kind p = KNormal /\ fwd_by_keyword va p = true /\
+        exists v, bv = BVal v /\ posc va p bv = [] /\ kwc va p bv = [(p_name p, v)]) \/
+     (p_kind p = KVarArgs /\ exists vs, bv = BTuple vs /\ posc va p bv = vs /\ kwc va p bv = []) \/
+     (p_kind p = KKwOnly /\ fwd_by_keyword va p = true /\
+        exists v, bv = BVal v /\ posc va p bv = [] /\ kwc va p bv = [(p_name p, v)]) \/
+     (p_kind p = KVarKw /\ bv = BDict DK /\ posc va p bv = [] /\ kwc va p bv = DK)).
+  Proof.
+    intros [Hn Hk]. cbn [fst snd] in *. split; auto.
+    unfold posc, kwc. destruct (p_kind p) eqn:K.
+    - left. destruct Hk as [v ->]. split; auto. now exists v.
+    - destruct Hk as [v ->]. destruct (fwd_by_keyword va p) eqn:F.
+      + right. right. left. split; auto. split; auto. now exists v.
+      + right. left. split; auto. split; auto. now exists v.
+    - right. right. right. left. destruct Hk as [vs ->]. split; auto. now exists vs.
+    - right. right. right. right. left. destruct Hk as [v ->]. split; auto. split.
+      + unfold fwd_by_keyword. now rewrite K.
+      + now exists v.
+    - right. right. right. right. right. subst bv. auto.
+  Qed.
+
+  Lemma fwd_kw_keys ps b' : Forall2 R ps b' -> forall k, In k (keys (fwd_kw va ps b')) ->
+    (exists p, In p ps /\ fwd_by_keyword va p = true /\ p_name p = k) \/ In k (keys DK).
+  Proof.
+    induction 1 as [|p [n bv] ps b' HRp HF IH]; intros k; [cbn; intros []|].
+    rewrite fwd_kw_cons, keys_app, in_app_iff.
+    intros [Hk|Hk].
+    - destruct (R_cases _ _ _ HRp) as [-> [C|[C|[C|[C|[C|C]]]]]].
+      + destruct C as [_ [v [_ [_ E]]]]. rewrite E in Hk. destruct Hk.
+      + destruct C as [_ [_ [v [_ [_ E]]]]]. rewrite E in Hk. destruct Hk.
+      + destruct C as [_ [F [v [_ [_ E]]]]]. rewrite E in Hk. destruct Hk as [<-|[]].
+        left. exists p. split; [now left|auto].
+      + destruct C as [_ [v [_ [_ E]]]]. rewrite E in Hk. destruct Hk.
+      + destruct C as [_ [F [v [_ [_ E]]]]]. rewrite E in Hk. destruct Hk as [<-|[]].
+        left. exists p. split; [now left|auto].
+      + destruct C as [_ [_ [_ E]]]. rewrite E in Hk. now right.
+    - destruct (IH k Hk) as [[q [Hq Hr]]|Hd]; [left|now right].
+      exists q. split; [now right|auto].
+  Qed.
+
+  Lemma kwD_of_param p : In p s -> p_kind p <> KVarArgs -> p_kind p <> KVarKw ->
+    kw_target (demote s) (p_name p) = true.
+  Proof.
+    intros Hin N1 N2. rewrite kw_target_demote. destruct (p_kind p) eqn:K; try congruence.
+    - rewrite (posonly_name_In s p); auto. apply orb_true_r.
+    - rewrite (kw_target_In s p); auto. now rewrite K.
+    - rewrite (kw_target_In s p); auto. now rewrite K.
+  Qed.
+
+  Lemma not_in_DK p : In p s -> p_kind p <> KVarArgs -> p_kind p <> KVarKw -> ~ In (p_name p) (keys DK).
+  Proof.
+    intros Hin N1 N2 H. apply HDK in H. rewrite kwD_of_param in H; auto. discriminate.
+  Qed.
+
+  (* F1: a parameter forwarded positionally is not a forwarded keyword *)
+  Lemma positional_not_kw p : In p s ->
+    (p_kind p = KPosOnly \/ (p_kind p = KNormal /\ fwd_by_keyword va p = false)) ->
+    ~ In (p_name p) (keys KW').
+  Proof.
+    intros Hin Hk H. apply (fwd_kw_keys s b HR) in H as [[q [Hq [Hf He]]]|Hd].
+    - assert (q = p) by (apply (names_inj s); auto). subst q.
+      destruct Hk as [K|[K F]]; [|congruence].
+      unfold fwd_by_keyword in Hf. rewrite K in Hf. discriminate.
+    - revert Hd. apply not_in_DK; auto; destruct Hk as [K|[K _]]; congruence.
+  Qed.
+
+  Lemma in_fwd_kw ps b' p n v : Forall2 R ps b' -> In (p, (n, BVal v)) (combine ps b') ->
+    fwd_by_keyword va p = true -> In (p_name p, v) (fwd_kw va ps b').
+  Proof.
+    induction 1 as [|q [n' bv] ps b' HRq HF IH]; cbn [combine]; [intros []|].
+    intros [E|E] F; rewrite fwd_kw_cons; apply in_or_app.
+    - inversion E; subst q n' bv. left.
+      destruct (R_cases _ _ _ HRq) as [_ [C|[C|[C|[C|[C|C]]]]]].
+      + destruct C as [K _]. unfold fwd_by_keyword in F. rewrite K in F. discriminate.
+      + destruct C as [_ [F' _]]. congruence.
+      + destruct C as [_ [_ [v' [Ev [_ E']]]]]. inversion Ev; subst. rewrite E'. now left.
+      + destruct C as [K _]. unfold fwd_by_keyword in F. rewrite K in F. discriminate.
+      + destruct C as [_ [_ [v' [Ev [_ E']]]]]. inversion Ev; subst. rewrite E'. now left.
+      + destruct C as [_ [Ev _]]. discriminate.
+    - right. auto.
+  Qed.
+
+  Lemma fwd_kw_nodup ps b' : Forall2 R ps b' -> order_ok ps = true -> NoDup (names ps) ->
+    (forall p, In p ps -> In p s) -> NoDup (keys (fwd_kw va ps b')).
+  Proof.
+    induction 1 as [|p [n bv] ps b' HRp HF IH]; intros Ho Hn Hs; [constructor|].
+    cbn [order_ok] in Ho. apply andb_true_iff in Ho as [Ho1 Ho2].
+    cbn [names map] in Hn. inversion Hn as [|x l Hn1 Hn2]; subst.
+    assert (IH' : NoDup (keys (fwd_kw va ps b'))).
+    { apply IH; auto. intros q Hq. apply Hs. now right. }
+    assert (Hps : In p s) by (apply Hs; now left).
+    assert (Fresh : by_keyword (p_kind p) = true -> ~ In (p_name p) (keys (fwd_kw va ps b'))).
+    { intros Bk H. apply (fwd_kw_keys ps b' HF) in H as [[q [Hq [_ He]]]|Hd].
+      - apply Hn1. rewrite <- He. now apply in_map.
+      - revert Hd. apply not_in_DK; auto; intros K; rewrite K in Bk; discriminate. }
+    rewrite fwd_kw_cons, keys_app.
+    destruct (R_cases _ _ _ HRp) as [_ [C|[C|[C|[C|[C|C]]]]]].
+    + destruct C as [_ [v [_ [_ E]]]]. now rewrite E.
+    + destruct C as [_ [_ [v [_ [_ E]]]]]. now rewrite E.
+    + destruct C as [K [_ [v [_ [_ E]]]]]. rewrite E. cbn [keys map fst app].
+      constructor; auto. apply Fresh. now rewrite K.
+    + destruct C as [_ [v [_ [_ E]]]]. now rewrite E.
+    + destruct C as [K [_ [v [_ [_ E]]]]]. rewrite E. cbn [keys map fst app].
+      constructor; auto. apply Fresh. now rewrite K.
+    + destruct C as [K [_ [_ E]]]. rewrite E.
+      destruct ps as [|q ps].
+      * inversion HF; subst. cbn [fwd_kw keys map]. now rewrite app_nil_r.
+      * cbn [forallb] in Ho1. unfold may_follow in Ho1. rewrite K in Ho1. discriminate.
+  Qed.
+
+  Lemma KW'_nodup : NoDup (keys KW').
+  Proof. apply fwd_kw_nodup; auto. Qed.
+
+  (* F2: a parameter forwarded by keyword is found again under its name *)
+  Lemma lookup_forwarded p n v : In (p, (n, BVal v)) (combine s b) ->
+    fwd_by_keyword va p = true -> lookup (p_name p) KW' = Some v.
+  Proof.
+    intros Hin F. apply lookup_NoDup; [apply KW'_nodup|]. now apply (in_fwd_kw s b p n v).
+  Qed.
+
+  Definition silent (p : param) : bool :=
+    match p_kind p with
+    | KPosOnly | KVarArgs => false
+    | KNormal => fwd_by_keyword va p
+    | _ => true
+    end.
+
+  Lemma fwd_pos_silent ps b' : Forall2 R ps b' -> forallb silent ps = true -> fwd_pos va ps b' = [].
+  Proof.
+    induction 1 as [|p [n bv] ps b' HRp HF IH]; cbn [forallb]; auto.
+    intros H. apply andb_true_iff in H as [H1 H2]. rewrite fwd_pos_cons, IH by auto.
+    rewrite app_nil_r. unfold silent in H1.
+    destruct (R_cases _ _ _ HRp) as [_ [C|[C|[C|[C|[C|C]]]]]].
+    + destruct C as [K _]. rewrite K in H1. discriminate.
+    + destruct C as [K [F _]]. rewrite K in H1. congruence.
+    + now destruct C as [_ [_ [v [_ [E _]]]]].
+    + destruct C as [K _]. rewrite K in H1. discriminate.
+    + now destruct C as [_ [_ [v [_ [E _]]]]].
+    + now destruct C as [_ [_ [E _]]].
+  Qed.
+
+  (* F4: nothing positional is forwarded after a keyword-forwarded parameter or after *args *)
+  Lemma tail_silent p ps : (forall q, In q ps -> In q s) -> forallb (may_follow p) ps = true ->
+    ((p_kind p = KNormal /\ fwd_by_keyword va p = true) \/ p_kind p = KVarArgs \/ p_kind p = KKwOnly) ->
+    forallb silent ps = true.
+  Proof.
+    intros Hs Hm Hp. apply forallb_forall. intros q Hq.
+    rewrite forallb_forall in Hm. specialize (Hm q Hq). unfold may_follow in Hm. unfold silent.
+    destruct Hp as [[K F]|[K|K]]; rewrite K in Hm.
+    - unfold fwd_by_keyword in F. rewrite K in F. apply andb_true_iff in F as [F1 F2].
+      rewrite F1 in Hm. apply negb_true_iff in F2.
+      destruct (p_kind q) eqn:Kq; cbn in Hm; auto; try discriminate.
+      + unfold fwd_by_keyword. rewrite Kq, F2. cbn. now rewrite Hm.
+      + assert (va = true) by (apply (has_kind_In KVarArgs s q); auto). congruence.
+    - destruct (p_kind q); auto; discriminate.
+    - destruct (p_kind q); auto; discriminate.
+  Qed.
+
+  Definition fT (kv : name * value) : bool := negb (kw_target T (fst kv)).
+
+  (* F3: the **kw dictionary is rebuilt from the forwarded keywords *)
+  Lemma filter_fwd_kw ps b' : Forall2 R ps b' -> order_ok ps = true -> (forall p, In p ps -> In p s) ->
+    filter fT (fwd_kw va ps b') = if has_kind KVarKw ps then DK else [].
+  Proof.
+    induction 1 as [|p [n bv] ps b' HRp HF IH]; intros Ho Hs; [reflexivity|].
+    cbn [order_ok] in Ho. apply andb_true_iff in Ho as [Ho1 Ho2].
+    assert (Hps : In p s) by (apply Hs; now left).
+    assert (IH' : filter fT (fwd_kw va ps b') = if has_kind KVarKw ps then DK else []).
+    { apply IH; auto. intros q Hq. apply Hs. now right. }
+    assert (Drop : forall v, by_keyword (p_kind p) = true -> filter fT [(p_name p, v)] = []).
+    { intros v Bk. cbn [filter]. unfold fT. cbn [fst]. rewrite kwT_of_s; auto. now apply kw_target_In. }
+    rewrite fwd_kw_cons, filter_app. unfold has_kind. cbn [existsb]. fold (has_kind KVarKw ps).
+    destruct (R_cases _ _ _ HRp) as [_ [C|[C|[C|[C|[C|C]]]]]].
+    + destruct C as [K [v [_ [_ E]]]]. now rewrite E, K.
+    + destruct C as [K [_ [v [_ [_ E]]]]]. now rewrite E, K.
+    + destruct C as [K [_ [v [_ [_ E]]]]]. rewrite E, K, Drop; auto. now rewrite K.
+    + destruct C as [K [v [_ [_ E]]]]. now rewrite E, K.
+    + destruct C as [K [_ [v [_ [_ E]]]]]. rewrite E, K, Drop; auto. now rewrite K.
+    + destruct C as [K [_ [_ E]]]. rewrite E, K. cbn [kind_eqb orb].
+      destruct ps as [|q ps].
+      * inversion HF; subst. cbn [fwd_kw filter]. rewrite app_nil_r.
+        clear - HDK T. induction DK as [|[k v] r IHr]; auto.
+        cbn [filter]. unfold fT at 1. cbn [fst].
+        destruct (kw_target T k) eqn:E.
+        -- apply kwT_le_D in E. rewrite HDK in E; [discriminate|now left].
+        -- cbn [negb]. f_equal. apply IHr. intros k' Hk'. apply HDK. now right.
+      * cbn [forallb] in Ho1. unfold may_follow in Ho1. rewrite K in Ho1. discriminate.
+  Qed.
+
+  Lemma trp_name p : p_name (tr p) = p_name p.
+  Proof. unfold tr, demote_param. destruct dm; auto. now destruct (p_kind p). Qed.
+
+  (* the walk of either binder over the forwarded call gives the bindings back *)
+  Lemma rebind_walk ps b' : Forall2 R ps b' -> order_ok ps = true ->
+    (forall p e, In (p, e) (combine ps b') -> In (p, e) (combine s b)) ->
+    bind_params T (map tr ps) (fwd_pos va ps b') KW' = Ok b'.
+  Proof.
+    induction 1 as [|p [n bv] ps b' HRp HF IH]; intros Ho Hs; [reflexivity|].
+    cbn [order_ok] in Ho. apply andb_true_iff in Ho as [Ho1 Ho2].
+    assert (Hpe : In (p, (n, bv)) (combine s b)) by (apply Hs; now left).
+    assert (Hps : In p s) by (eapply in_combine_l; eauto).
+    assert (Hqs : forall q, In q ps -> In q s).
+    { intros q Hq. destruct (Forall2_In_combine _ _ _ _ HF Hq) as [e He].
+      eapply in_combine_l. apply Hs. right. exact He. }
+    assert (IH' : bind_params T (map tr ps) (fwd_pos va ps b') KW' = Ok b').
+    { apply IH; auto. intros q e Hq. apply Hs. now right. }
+    rewrite fwd_pos_cons. cbn [map].
+    destruct (R_cases _ _ _ HRp) as [-> [C|[C|[C|[C|[C|C]]]]]].
+    + (* positional-only *)
+      destruct C as [K [v [-> [E _]]]]. rewrite E. cbn [app].
+      assert (Hn : ~ In (p_name p) (keys KW')) by (apply positional_not_kw; auto).
+      assert (Htr : tr p = mkParam (p_name p) KNormal (p_default p) \/ tr p = p).
+      { unfold tr, demote_param. destruct dm; rewrite ?K; auto. }
+      destruct Htr as [-> | ->].
+      * cbn [bind_params p_kind p_name].
+        apply memb_false in Hn. rewrite Hn. now rewrite IH'.
+      * cbn [bind_params]. rewrite K. now rewrite IH'.
+    + destruct C as [K [F [v [-> [E _]]]]]. rewrite E. cbn [app].
+      assert (Hn : ~ In (p_name p) (keys KW')) by (apply positional_not_kw; auto).
+      rewrite tr_other by congruence. cbn [bind_params]. rewrite K.
+      apply memb_false in Hn. rewrite Hn. now rewrite IH'.
+    + destruct C as [K [F [v [-> [E _]]]]]. rewrite E. cbn [app].
+      assert (St : fwd_pos va ps b' = []).
+      { apply fwd_pos_silent; auto. apply (tail_silent p); auto. }
+      rewrite St in *. rewrite tr_other by congruence. cbn [bind_params]. rewrite K.
+      rewrite (lookup_forwarded p (p_name p) v); auto. now rewrite IH'.
+    + destruct C as [K [vs [-> [E _]]]]. rewrite E.
+      assert (St : fwd_pos va ps b' = []).
+      { apply fwd_pos_silent; auto. apply (tail_silent p); auto. }
+      rewrite St in *. rewrite app_nil_r. rewrite tr_other by congruence. cbn [bind_params]. rewrite K.
+      now rewrite IH'.
+    + destruct C as [K [F [v [-> [E _]]]]]. rewrite E. cbn [app].
+      rewrite tr_other by congruence. cbn [bind_params]. rewrite K.
+      rewrite (lookup_forwarded p (p_name p) v); auto. now rewrite IH'.
+    + destruct C as [K [-> [E _]]]. rewrite E. cbn [app].
+      rewrite tr_other by congruence. cbn [bind_params]. rewrite K. rewrite IH'. cbn [rcons].
+      fold fT. unfold KW'. rewrite (filter_fwd_kw s b); auto.
+      rewrite (has_kind_In KVarKw s p); auto.
+  Qed.
+
+  Lemma n_positional_T : n_positional T = n_positional s.
+  Proof. destruct T_cases as [-> | ->]; auto using n_positional_demote. Qed.
+
+  Lemma has_kind_T kd : kd <> KPosOnly -> kd <> KNormal -> has_kind kd T = has_kind kd s.
+  Proof. intros. destruct T_cases as [-> | ->]; auto using has_kind_demote. Qed.
+
+  Lemma fwd_pos_len ps b' : va = false -> Forall2 R ps b' -> (forall p, In p ps -> In p s) ->
+    List.length (fwd_pos va ps b') <= n_positional ps.
+  Proof.
+    intros Hva. induction 1 as [|p [n bv] ps b' HRp HF IH]; intros Hs; [cbn; lia|].
+    assert (IH' : List.length (fwd_pos va ps b') <= n_positional ps).
+    { apply IH. intros q Hq. apply Hs. now right. }
+    rewrite fwd_pos_cons, app_length. unfold n_positional in *. cbn [filter].
+    destruct (R_cases _ _ _ HRp) as [_ [C|[C|[C|[C|[C|C]]]]]].
+    + destruct C as [K [v [_ [E _]]]]. rewrite E, K. cbn. lia.
+    + destruct C as [K [_ [v [_ [E _]]]]]. rewrite E, K. cbn. lia.
+    + destruct C as [K [_ [v [_ [E _]]]]]. rewrite E, K. cbn. lia.
+    + destruct C as [K _]. assert (va = true); [|congruence].
+      apply (has_kind_In KVarArgs s p); auto. apply Hs. now left.
+    + destruct C as [K [_ [v [_ [E _]]]]]. rewrite E, K. cbn. lia.
+    + destruct C as [K [_ [E _]]]. rewrite E, K. cbn. lia.
+  Qed.
+
+  Lemma fwd_kw_targets ps b' : has_kind KVarKw s = false -> Forall2 R ps b' ->
+    (forall p, In p ps -> In p s) ->
+    forallb (fun kv : name * value => kw_target T (fst kv)) (fwd_kw va ps b') = true.
+  Proof.
+    intros Hvk. induction 1 as [|p [n bv] ps b' HRp HF IH]; intros Hs; [reflexivity|].
+    assert (Hps : In p s) by (apply Hs; now left).
+    rewrite fwd_kw_cons, forallb_app, IH by (intros q Hq; apply Hs; now right).
+    rewrite andb_true_r.
+    destruct (R_cases _ _ _ HRp) as [_ [C|[C|[C|[C|[C|C]]]]]].
+    + now destruct C as [_ [v [_ [_ ->]]]].
+    + now destruct C as [_ [_ [v [_ [_ ->]]]]].
+    + destruct C as [K [_ [v [_ [_ ->]]]]]. cbn [forallb fst]. rewrite kwT_of_s; auto.
+      apply kw_target_In; auto. now rewrite K.
+    + now destruct C as [_ [v [_ [_ ->]]]].
+    + destruct C as [K [_ [v [_ [_ ->]]]]]. cbn [forallb fst]. rewrite kwT_of_s; auto.
+      apply kw_target_In; auto. now rewrite K.
+    + destruct C as [K _]. rewrite (has_kind_In KVarKw s p) in Hvk; auto. discriminate.
+  Qed.
+
+  Lemma rebind : bind T (forward s b) = Ok b.
+  Proof.
+    unfold bind, forward. cbn [c_pos c_kw]. fold va. fold KW'.
+    assert (N : nodupb (keys KW') = true) by (apply nodupb_NoDup, KW'_nodup).
+    rewrite N. cbn [negb].
+    rewrite !has_kind_T by discriminate. rewrite n_positional_T. fold va.
+    destruct va eqn:Hva; cbn [negb andb].
+    - destruct (has_kind KVarKw s) eqn:Hvk; cbn [negb andb].
+      + unfold T. rewrite <- Hva. apply rebind_walk; auto.
+      + unfold KW'. rewrite Hva. rewrite <- Hva at 1. rewrite fwd_kw_targets; auto. cbn [negb].
+        unfold T. rewrite <- Hva. apply rebind_walk; auto.
+    - assert (L : Nat.ltb (n_positional s) (List.length (fwd_pos false s b)) = false).
+      { apply PeanoNat.Nat.ltb_ge. rewrite <- Hva. apply fwd_pos_len; auto. }
+      rewrite L.
+      destruct (has_kind KVarKw s) eqn:Hvk; cbn [negb andb].
+      + unfold T. rewrite <- Hva. apply rebind_walk; auto.
+      + unfold KW'. rewrite Hva. rewrite <- Hva at 1. rewrite fwd_kw_targets; auto. cbn [negb].
+        unfold T. rewrite <- Hva. apply rebind_walk; auto.
+  Qed.
+End Forward.
